@@ -1129,5 +1129,181 @@ theorem gen_getitem_last_is_model (sv : SeqVars) (fuel : Nat) (x : Text) (hx : '
 example : ∀ k ∈ fixedKeys, dataHas { items := [.int 1, .int 2], index := 1, started := false } k = none := by decide
 
 end GenDispatch
+/-! ### The whole of `InClass.renderwob` (prologue, loop, epilogue), translated from the source on every run
+
+Outside the model's dtml-in (and so outside these equalities): multi-key and `/func/desc` sort specifications (`sortPart` is one
+key, default comparison), lazy sequences (`SequenceFromIter`: `ensureSubscription` is the identity on lists / tuples / strings,
+the keys of a mapping), the batch parameters (`renderwb`: its loop is tied by `gen_in_batch_*`, its prologue by the window
+theorems of C11). -/
+
+private theorem tail_eq (env : Env) (f : Nat) (src : Src) (o : InOpts) (x : InXOpts) (body : List Blk) (xs : List Val) (v : Val) (st' : St) :
+    Lemmas.InGen.contR (evalSortKey env (f + 1) x st') (fun key sA =>
+        Lemmas.InGen.contR (sortPart env o { sortKey := key } xs sA) (fun sorted sB =>
+          Lemmas.InGen.contR (evalReverse env (f + 1) x sB) (fun rev s1 =>
+            Lemmas.InGen.loopPart env (f + 1) o body (applyReverse rev sorted) (cacheOf src v) s1))) =
+    (match evalSortKey env (f + 1) x st' with
+             | (.ok key, sA) =>
+               (match sortPart env o { sortKey := key } xs sA with
+                | (.ok sorted, sB) =>
+                  (match evalReverse env (f + 1) x sB with
+                   | (.ok rev, st1) => Lemmas.InGen.loopPart env (f + 1) o body (applyReverse rev sorted) (cacheOf src v) st1
+                   | (.raise e, st1) => (.raise e, st1)
+                   | (.ret x, st1) => (.ret x, st1)
+                   | (.oom, st1) => (.oom, st1))
+                | (.raise e, sB) => (.raise e, sB)
+                | (.ret x, sB) => (.ret x, sB)
+                | (.oom, sB) => (.oom, sB))
+             | (.raise e, sA) => (.raise e, sA)
+             | (.ret x, sA) => (.ret x, sA)
+             | (.oom, sA) => (.oom, sA)) := by
+  generalize evalSortKey env (f + 1) x st' = r
+  rcases r with ⟨r, sA⟩
+  cases r with
+  | ok key =>
+    simp only [Lemmas.InGen.contR]
+    generalize sortPart env o _ xs sA = r2
+    rcases r2 with ⟨r2, sB⟩
+    cases r2 with
+    | ok sorted =>
+      simp only []
+      generalize evalReverse env (f + 1) x sB = r3
+      rcases r3 with ⟨r3, s1⟩
+      cases r3 <;> rfl
+    | raise e => rfl
+    | ret v => rfl
+    | oom => rfl
+  | raise e => rfl
+  | ret v => rfl
+  | oom => rfl
+
+/-- **the whole unbatched tag**: the prologue of `renderwob` as the source runs it (the sequence by name or by expression,
+`sequence_ensure_subscription`, the refusal of a string, the else section exactly when `sequence[0]` fails, the sort step, then
+the reverse step, the variables built and pushed on top of the cache of a named sequence), the loop from `inLoopStart`, the
+join and the pops of the `finally`, is `renderBlk` on dtml-in with sort / reverse options, for every namespace and fuel -/
+theorem gen_in_tag_is_model (env : Env) (fuel : Nat) (src : Src) (o : InOpts) (x : InXOpts) (body : List Blk)
+    (els : Option (List Blk)) (st : St) (hb : x.batch = none) :
+    oneRes (GenIn.inTagGen env fuel src o x body els st) = renderBlk env (fuel + 1) (.inx_ src o x body els) st := by
+  cases fuel with
+  | zero =>
+    unfold renderBlk
+    cases src <;> simp [GenIn.inTagGen, GenIn.mdGetitem, GenIn.callExpr, evalSrc, oneRes]
+  | succ f =>
+    unfold renderBlk
+    simp only [hb]
+    cases src with
+    | name n =>
+      simp only [GenIn.inTagGen, GenIn.mdGetitem]
+      generalize evalSrc env (f + 1) (.name n) st = r0
+      rcases r0 with ⟨r0, st'⟩
+      cases r0 with
+      | ok v =>
+        cases v with
+        | list xs =>
+          cases xs with
+          | nil => cases els <;> simp [GenIn.ensureSubscription, GenIn.inArrangeGen, GenIn.isStr, GenIn.seqProbe, GenIn.seqItems, oneRes, pieceEmpty]
+          | cons a t =>
+            simp only [GenIn.ensureSubscription]
+            rw [Lemmas.InGen.arrange_eq env f o _ body els _ _ st' rfl (by simp [GenIn.seqItems])]
+            simp only [Lemmas.InGen.sortPart_key]
+            exact tail_eq env f (.name n) o x body (a :: t) (Val.list (a :: t)) st'
+        | tuple xs =>
+          cases xs with
+          | nil => cases els <;> simp [GenIn.ensureSubscription, GenIn.inArrangeGen, GenIn.isStr, GenIn.seqProbe, GenIn.seqItems, oneRes, pieceEmpty]
+          | cons a t =>
+            simp only [GenIn.ensureSubscription]
+            rw [Lemmas.InGen.arrange_eq env f o _ body els _ _ st' rfl (by simp [GenIn.seqItems])]
+            simp only [Lemmas.InGen.sortPart_key]
+            exact tail_eq env f (.name n) o x body (a :: t) (Val.tuple (a :: t)) st'
+        | dict kvs =>
+          cases kvs with
+          | nil => cases els <;> simp [GenIn.ensureSubscription, GenIn.inArrangeGen, GenIn.isStr, GenIn.seqProbe, GenIn.seqItems, oneRes, pieceEmpty]
+          | cons a t =>
+            simp only [GenIn.ensureSubscription]
+            rw [Lemmas.InGen.arrange_eq env f o _ body els _ _ st' rfl (by simp [GenIn.seqItems])]
+            simp only [Lemmas.InGen.sortPart_key]
+            exact tail_eq env f (.name n) o x body ((a :: t).map fun kv => Val.str kv.1) (Val.dict (a :: t)) st'
+        | str s => simp [GenIn.ensureSubscription, GenIn.inArrangeGen, GenIn.isStr, oneRes]
+        | _ => simp [GenIn.ensureSubscription, oneRes]
+      | raise e => simp [oneRes]
+      | ret v => simp [oneRes]
+      | oom => simp [oneRes]
+    | expr e =>
+      simp only [GenIn.inTagGen, GenIn.callExpr]
+      generalize evalSrc env (f + 1) (.expr e) st = r0
+      rcases r0 with ⟨r0, st'⟩
+      cases r0 with
+      | ok v =>
+        cases v with
+        | list xs =>
+          cases xs with
+          | nil => cases els <;> simp [GenIn.ensureSubscription, GenIn.inArrangeGen, GenIn.isStr, GenIn.seqProbe, GenIn.seqItems, oneRes, pieceEmpty]
+          | cons a t =>
+            simp only [GenIn.ensureSubscription]
+            rw [Lemmas.InGen.arrange_eq env f o _ body els _ _ st' rfl (by simp [GenIn.seqItems])]
+            simp only [Lemmas.InGen.sortPart_key]
+            exact tail_eq env f (.expr e) o x body (a :: t) (Val.list (a :: t)) st'
+        | tuple xs =>
+          cases xs with
+          | nil => cases els <;> simp [GenIn.ensureSubscription, GenIn.inArrangeGen, GenIn.isStr, GenIn.seqProbe, GenIn.seqItems, oneRes, pieceEmpty]
+          | cons a t =>
+            simp only [GenIn.ensureSubscription]
+            rw [Lemmas.InGen.arrange_eq env f o _ body els _ _ st' rfl (by simp [GenIn.seqItems])]
+            simp only [Lemmas.InGen.sortPart_key]
+            exact tail_eq env f (.expr e) o x body (a :: t) (Val.tuple (a :: t)) st'
+        | dict kvs =>
+          cases kvs with
+          | nil => cases els <;> simp [GenIn.ensureSubscription, GenIn.inArrangeGen, GenIn.isStr, GenIn.seqProbe, GenIn.seqItems, oneRes, pieceEmpty]
+          | cons a t =>
+            simp only [GenIn.ensureSubscription]
+            rw [Lemmas.InGen.arrange_eq env f o _ body els _ _ st' rfl (by simp [GenIn.seqItems])]
+            simp only [Lemmas.InGen.sortPart_key]
+            exact tail_eq env f (.expr e) o x body ((a :: t).map fun kv => Val.str kv.1) (Val.dict (a :: t)) st'
+        | str s => simp [GenIn.ensureSubscription, GenIn.inArrangeGen, GenIn.isStr, oneRes]
+        | _ => simp [GenIn.ensureSubscription, oneRes]
+      | raise e => simp [oneRes]
+      | ret v => simp [oneRes]
+      | oom => simp [oneRes]
+
+/-- the same for the plain dtml-in (`.in_`: no sort / reverse options) -/
+theorem gen_in_tag_is_in (env : Env) (fuel : Nat) (src : Src) (o : InOpts) (body : List Blk) (els : Option (List Blk)) (st : St) :
+    oneRes (GenIn.inTagGen env fuel src o {} body els st) = renderBlk env (fuel + 1) (.in_ src o body els) st := by
+  rw [gen_in_tag_is_model env fuel src o {} body els st rfl]
+  cases fuel with
+  | zero => unfold renderBlk; cases src <;> simp [evalSrc]
+  | succ f =>
+    unfold renderBlk
+    simp [evalSortKey, evalReverse, sortPart, applyReverse, cacheOf]
+
+/-- **the else section is rendered exactly when the sequence is empty** (the generated prologue; `else_iff_empty` is the same
+statement about the model) -/
+theorem gen_in_else_iff_empty (env : Env) (fuel : Nat) (src : Src) (o : InOpts) (x : InXOpts) (body e : List Blk) (st st' : St)
+    (xs : List Val) (h : evalSrc env fuel src st = (.ok (.list xs), st')) :
+    (xs = [] → GenIn.inTagGen env fuel src o x body (some e) st = renderJoined env fuel e st') ∧
+    (xs ≠ [] → ∀ e', GenIn.inTagGen env fuel src o x body (some e) st = GenIn.inTagGen env fuel src o x body e' st) := by
+  constructor
+  · intro hx
+    subst hx
+    cases src <;>
+      simp [GenIn.inTagGen, GenIn.mdGetitem, GenIn.callExpr, h, GenIn.ensureSubscription, GenIn.inArrangeGen, GenIn.isStr,
+        GenIn.seqProbe, GenIn.seqItems]
+  · intro hx e'
+    cases xs with
+    | nil => exact (hx rfl).elim
+    | cons a t =>
+      have h0 : (0 : Int) ≤ (t.length : Int) + 1 := by omega
+      cases src <;>
+        simp [GenIn.inTagGen, GenIn.mdGetitem, GenIn.callExpr, h, GenIn.ensureSubscription, GenIn.inArrangeGen, GenIn.isStr,
+          GenIn.seqProbe, GenIn.seqItems, h0]
+
+/-- **sort, then reverse** (C13 rests on this order): between the emptiness probe and the loop the source evaluates the sort key,
+sorts, evaluates the reverse condition, reverses - in this order -/
+theorem gen_in_sort_then_reverse (env : Env) (f : Nat) (o : InOpts) (x : InXOpts) (body : List Blk) (els : Option (List Blk)) (V : Val)
+    (cache : Option Frame) (st : St) (hs : GenIn.isStr V = false) (hp : GenIn.seqItems V ≠ []) :
+    oneRes (GenIn.inArrangeGen env (f + 1) o x body els V cache st) =
+      Lemmas.InGen.contR (evalSortKey env (f + 1) x st) (fun key sA =>
+        Lemmas.InGen.contR (sortPart env o { x with sortKey := key } (GenIn.seqItems V) sA) (fun sorted sB =>
+          Lemmas.InGen.contR (evalReverse env (f + 1) x sB) (fun rev s1 =>
+            Lemmas.InGen.loopPart env (f + 1) o body (applyReverse rev sorted) cache.toList s1))) :=
+  Lemmas.InGen.arrange_eq env f o x body els V cache st hs hp
 
 end DTML.Props.C10
